@@ -35,6 +35,7 @@ THEOREMS = [
     "GitAi.C07.witness_current_fallback_invents",
     "GitAi.C07.lost_snapshot_invents_with_current_fallback",
     "GitAi.C07.witness_initial_current_invents",
+    "GitAi.C07.witness_forged_snapshot_invents",
     "GitAi.C06.inventory_confined",
     "GitAi.C06.refusal_only_precommit",
 ]
@@ -484,7 +485,21 @@ def case_clone_stdout_full():
         return out
 
 
-CASES = {"o12-torn-checkpoints-with-initial": case_o12, "clone-stdout-full": case_clone_stdout_full}
+def case_snapshot(job):
+    """a fixed scenario of the snapshot stream (vlib/props/c07_snapshots.py): (mode, damage, person's edit, target, seed)"""
+    def run_case():
+        return SNAP.scenario(job)["failures"]
+    return run_case
+
+
+CASES = {"o12-torn-checkpoints-with-initial": case_o12, "clone-stdout-full": case_clone_stdout_full,
+         # seeded/C07-seed1: the entry's snapshot deleted / made non-UTF-8, a person retypes the agent's lines in place
+         "lost-entry-snapshot-retyped": case_snapshot(("ckpt", "delete", "retype", "all", 7001)),
+         "nonutf8-entry-snapshot-inserted-above": case_snapshot(("ckpt2", "byte-ff", "insert-above", "latest", 7002)),
+         # /repo 0b914ae9: INITIAL's recorded snapshot deleted, a person retypes the pending lines
+         "lost-initial-snapshot-retyped": case_snapshot(("initial", "delete", "retype", "all", 7003)),
+         # /repo 5a89ac1a: a directory at the path of the blob the checkpoint is about to write
+         "blob-slot-is-a-directory": case_snapshot(("ckpt", "directory", "keep", "all", 7004))}
 
 
 def phase_corpus(res):
